@@ -215,7 +215,7 @@ def np_polygamma(m, x, out=None):
     This is changed because scipy.special.polygamma does not have 'out'.
     """
     if out is None:
-        out = np.copy(x)
+        out = np.array(x, dtype=np.result_type(x, float))
     out[...] = scipy.special.polygamma(m, x)
     return out
 
